@@ -9,7 +9,7 @@ import (
 
 var alphaSyntax = []rune{'@', '(', ')', '"', '\\', '.', ' ', '_', '&', ',', '[', ']', '\'', '=', '-', '+'}
 var alphaLetters = []rune{'a', 'b', 'z', 'A', 'Q', 'n', 't', 'u', 'x', '0', '1', '7', '9', 'e'}
-var alphaNonASCII = []rune{'é', 'ß', '中', 'Ж', 'ñ', '\u0663', '\U0001F600', '\u2122', '\u20ac', '\u0301', '\u00a0', '\u2003', '\U0001F1E6', '\u202f', '\u01c5', '\ufeff', '\U00010348'}
+var alphaNonASCII = []rune{'é', 'ß', '中', 'Ж', 'ñ', '\u0663', '\U0001F600', '\u2122', '\u20ac', '\u0301', '\u00a0', '\u2003', '\U0001F1E6', '\u202f', '\u01c5', '\ufeff', '\U00010348', '\ufffd', '\ufffd', '\ufffe', '\U0010ffff', '\ue000'}
 var alphaControl = []rune{'\n', '\t', '\r', '\x01', '\x7f', '\x1b', '\x0b', '\x0c', '\x07', '\x08', '\u0085', '\u200b', '\u00ad'}
 
 func genRune(r *Rng) rune {
